@@ -74,8 +74,10 @@ Emit(r) ==
               /\ full' = IF pc = "run" THEN out ELSE full
 
 (* reader calls Next *)
+(* (\E r \in {e} : ...) binds the value of e once; TLC re-evaluates action-level LET       *)
+(* definitions and operator arguments at every use.)                                        *)
 ReaderNext == /\ pc \in {"run", "srun"}
-              /\ Emit(ItNext(it))
+              /\ \E r \in {ItNext(it)} : Emit(r)
               /\ UNCHANGED <<reps, target>>
 
 (* a second reader starts on a fresh iterator of the same series *)
@@ -88,10 +90,10 @@ Pick(x) == /\ pc = "pick"
 (* iterator whose Seek is one step.                                                          *)
 SeekEnter == /\ pc = "seekstart"
              /\ IF it.k = "leaf"
-                  THEN Emit(ItSeek(it, target))
+                  THEN \E r \in {ItSeek(it, target)} : Emit(r)
                   ELSE /\ UNCHANGED <<out, full>>
                        /\ IF ~it.has
-                            THEN LET r == DDNext(it) IN   \* nothing read yet: consult both replicas
+                            THEN \E r \in {DDNext(it)} :   \* nothing read yet: consult both replicas
                                  it' = r.it /\ pc' = IF r.ok THEN "seeking" ELSE "done"
                             ELSE it' = it /\ pc' = "seeking"
              /\ UNCHANGED <<reps, target>>
@@ -99,7 +101,7 @@ SeekEnter == /\ pc = "seekstart"
 SeekLoop == /\ pc = "seeking"
             /\ IF ItAtT(it) >= target
                  THEN it' = it /\ out' = Append(out, ItAt(it)) /\ pc' = "srun"
-                 ELSE LET r == DDNext(it) IN
+                 ELSE \E r \in {DDNext(it)} :
                       /\ it' = r.it /\ out' = out
                       /\ pc' = IF r.ok THEN "seeking" ELSE "done"
             /\ UNCHANGED <<reps, target, full>>
